@@ -26,7 +26,20 @@ def disk_state(target):
         mt = os.stat(target).st_mtime_ns
     except OSError:
         mt = None
-    return {"target": rd(target), "staging": rd(target + ".STAGING"), "mtime": mt}
+    # the staging file: whatever other regular file sits next to the target (the store's scratch directory holds
+    # nothing else), under whatever name the implementation gives it
+    staging, staging_name = None, None
+    d = os.path.dirname(target)
+    try:
+        names = sorted(os.listdir(d))
+    except OSError:
+        names = []
+    for n in names:
+        q = os.path.join(d, n)
+        if q != target and os.path.isfile(q):
+            staging, staging_name = rd(q), n
+            break
+    return {"target": rd(target), "staging": staging, "staging_name": staging_name, "mtime": mt}
 
 
 class Injected(OSError):
@@ -61,8 +74,8 @@ class Tracer:
             return None
         if rp == self.target:
             return "target"
-        if rp == self.staging:
-            return "staging"
+        if os.path.dirname(rp) == os.path.dirname(self.target):
+            return "staging"  # any other file next to the target
         if rp.startswith(self.root + os.sep):
             return "other"
         return None
